@@ -1,16 +1,32 @@
 (* C14chk.v — predicates for the generated trigger programs. *)
-From Continuum Require Import Model.Base Model.VTable Model.Trigger.
+From Continuum Require Import Model.Base Model.VTable Model.Trigger Model.TriggerSpec Proofs.TriggerFullP.
 
 Inductive C14_case :=
 | C14_P (g : tcfg) (parsed : option tprog)                 (* text of CreateTriggerFunctionSQL, parsed   *)
         (evs : list (option Z * tevent))                   (* row events with the active transaction id  *)
+        (executed : option ttable)                         (* the version table after SQLite executed the
+                                                              generated statements for these events       *)
 | C14_S (g : tcfg) (sync_excluded : option (list Z)).      (* excluded ARRAY emitted by sync_trigger      *)
 
 (* structural tie: the program the code generates is the program the model generates *)
+(* rows compared by content: column order inside a row is not significant *)
+Definition trow_same (g : tcfg) (a b : trow) : bool :=
+  (tr_tx a =? tr_tx b) && oz_eqb (tr_end a) (tr_end b) && (tr_op a =? tr_op b) &&
+  forallb (fun c => val_eqb (tget a (tc_name c)) (tget b (tc_name c)) &&
+                    Bool.eqb (mget a (tc_name c)) (mget b (tc_name c))) (tg_cols g).
+Definition ttable_same (g : tcfg) (a b : ttable) : bool :=
+  (length a =? length b)%nat &&
+  forallb (fun x => existsb (trow_same g x) b) a && forallb (fun x => existsb (trow_same g x) a) b.
+
+Definition prog_run0 (p : tprog) (evs : list (option Z * tevent)) : ttable :=
+  fold_left (fun t te => texec p (fst te) (snd te) t) evs [].
+
+(* structural tie: the program the code generates is the program the model generates; semantic tie:
+   texec of the parsed program = what SQLite left after executing the generated statements *)
 Definition C14_corr (c : C14_case) : bool :=
   match c with
-  | C14_P g (Some p) _ => tprog_eqb (gen g) p
-  | C14_P _ None _ => false
+  | C14_P g (Some p) evs (Some ex) => tprog_eqb (gen g) p && ttable_same g (prog_run0 p evs) ex
+  | C14_P _ _ _ _ => false
   | C14_S g (Some ex) =>
       let want := map tc_name (filter tc_excl (tg_cols g)) in
       forallb (fun n => existsb (Z.eqb n) ex) want && forallb (fun n => existsb (Z.eqb n) want) ex
@@ -38,58 +54,6 @@ Definition completeb (g : tcfg) (u : upsert) : bool :=
   forallb (fun c => Bool.eqb (existsb (fun x => match x with CMod n => n =? tc_name c | _ => false end) (up_cols u))
                              (tg_tracker g && negb (tc_excl c) && negb (tc_pk c))) (tg_cols g).
 
-(* the object-based path, for a row event that is the first one on its row in the transaction *)
-Definition same_pk (g : tcfg) (r : trow) (p : prow) : bool :=
-  forallb (fun c => sql_eq (tget r (tc_name c)) (pget p (tc_name c))) (tpk g).
-
-Definition spec_step (g : tcfg) (T : Z) (e : tevent) (t : ttable) : ttable :=
-  let '(kind, cur, old, new) :=
-    match e with
-    | TIns n => (OP_INS, n, [], n) | TUpd o n => (OP_UPD, n, o, n) | TDel o => (OP_DEL, o, o, []) end in
-  let unchanged :=
-    match e with
-    | TUpd o n => forallb (fun c => tc_excl c || val_eqb (pget o (tc_name c)) (pget n (tc_name c))) (tg_cols g)
-    | _ => false end in
-  if unchanged then t else
-  let newflags :=
-    if tg_tracker g
-    then map (fun c => (tc_name c,
-               if kind =? OP_UPD then distinct (pget old (tc_name c)) (pget new (tc_name c)) else true)) (tnonpk g)
-    else [] in
-  let at_T r := (tr_tx r =? T) && same_pk g r cur in
-  if existsb at_T t then
-    (* a later event on the same row within the transaction: the object path rewrites the row of
-       this transaction: last state, coalesced operation type, flags OR-ed; nothing else changes *)
-    map (fun r => if at_T r
-                  then mktr T (tr_end r) (if kind =? OP_DEL then OP_DEL else OP_UPD)
-                            (map (fun c => (tc_name c, pget cur (tc_name c))) (tcols g))
-                            (map (fun cf => (fst cf, snd cf || mget r (fst cf))) newflags)
-                  else r) t
-  else
-  let closed :=
-    if tg_validity g
-    then (* close the newest open row of the entity *)
-      let open := filter (fun r => match tr_end r with None => same_pk g r cur | Some _ => false end) t in
-      match map tr_tx open with
-      | [] => t
-      | x :: xs => let m := fold_left Z.min xs x in
-                   map (fun r => if (tr_tx r =? m) && same_pk g r cur
-                                 then mktr (tr_tx r) (Some T) (tr_op r) (tr_dat r) (tr_mod r) else r) t
-      end
-    else t in
-  closed ++ [mktr T None kind
-               (map (fun c => (tc_name c, pget cur (tc_name c))) (tcols g))
-               (if tg_tracker g
-                then map (fun c => (tc_name c,
-                           if kind =? OP_UPD then distinct (pget old (tc_name c)) (pget new (tc_name c)) else true))
-                         (tnonpk g)
-                else [])].
-
-Definition spec_run (g : tcfg) (evs : list (option Z * tevent)) : ttable :=
-  fold_left (fun t te => match fst te with None => t | Some T => spec_step g T (snd te) t end) evs [].
-Definition prog_run (p : tprog) (evs : list (option Z * tevent)) : ttable :=
-  fold_left (fun t te => texec p (fst te) (snd te) t) evs [].
-
 Definition assoc_eqb {A} (eqb : A -> A -> bool) (a b : list (Z * A)) : bool :=
   list_eqb (fun x y => (fst x =? fst y) && eqb (snd x) (snd y)) a b.
 Definition trow_eqb (a b : trow) : bool :=
@@ -98,14 +62,23 @@ Definition trow_eqb (a b : trow) : bool :=
 
 Definition C14_prop (c : C14_case) : bool :=
   match c with
-  | C14_P g (Some p) evs =>
+  | C14_P g (Some p) evs _ =>
       alignedb (up_cols (tp_ins p)) (up_vals (tp_ins p)) && alignedb (up_cols (tp_upd p)) (up_vals (tp_upd p)) &&
       alignedb (up_cols (tp_del p)) (up_vals (tp_del p)) &&
       completeb g (tp_ins p) && completeb g (tp_upd p) && completeb g (tp_del p) &&
       list_eqb trow_eqb (prog_run p evs) (spec_run g evs)
-  | C14_P _ None _ => false
+  | C14_P _ None _ _ => false
   | C14_S g (Some ex) =>
       let want := map tc_name (filter tc_excl (tg_cols g)) in
       forallb (fun n => existsb (Z.eqb n) ex) want && forallb (fun n => existsb (Z.eqb n) want) ex
   | C14_S _ None => false
+  end.
+
+(* the hypotheses of C14_trigger_program_equals_object_path, evaluated on every generated case *)
+Fixpoint nodupZ (l : list Z) : bool :=
+  match l with [] => true | x :: l' => negb (existsb (Z.eqb x) l') && nodupZ l' end.
+Definition C14_pre (c : C14_case) : bool :=
+  match c with
+  | C14_P g _ evs _ => nodupZ (map tc_name (tg_cols g)) && evs_okb g [] evs
+  | C14_S _ _ => true
   end.
